@@ -157,7 +157,7 @@ pub fn splice(segs: &[Seg], off: usize, ins: Option<Seg>, cut: bool) -> Vec<Seg>
 /// offsets (in wire) of chunk-framing bytes: size digits, CR/LF of size lines and after data
 pub fn framing_offsets(spec_: &RespSpec, head_len: usize) -> Vec<usize> {
     let mut v = vec![];
-    if let BodySpec::Chunked { chunks, last_repr, last_ext } = &spec_.body {
+    if let BodySpec::Chunked { chunks, last_repr, last_ext, trailers } = &spec_.body {
         let mut off = head_len;
         for c in chunks {
             for i in 0..c.size_repr.len() {
@@ -175,9 +175,21 @@ pub fn framing_offsets(spec_: &RespSpec, head_len: usize) -> Vec<usize> {
             v.push(off + i);
         }
         off += last_repr.len() + last_ext.len();
-        for i in 0..4 {
-            v.push(off + i);
+        v.push(off);
+        v.push(off + 1);
+        off += 2;
+        for t in trailers {
+            if !t.is_empty() {
+                v.push(off);
+                v.push(off + t.len() / 2);
+            }
+            off += t.len();
+            v.push(off);
+            v.push(off + 1);
+            off += 2;
         }
+        v.push(off);
+        v.push(off + 1);
     }
     v
 }
